@@ -60,14 +60,21 @@ func GetIPAtIndex(ipNet net.IPNet, index int64) net.IP {
 		ip = *netRange.Last
 		index++
 	}
+	ipLen := net.IPv6len
 	if ip.To4() != nil {
 		val.SetBytes(ip.To4())
+		ipLen = net.IPv4len
 	} else {
 		val.SetBytes(ip)
 	}
 	val.Add(val, big.NewInt(index))
-	if ipNet.Contains(val.Bytes()) {
-		return val.Bytes()
+	if val.Sign() < 0 || val.BitLen() > ipLen*8 {
+		return nil
+	}
+	// big.Int.Bytes() drops leading zero bytes, keep the address length
+	res := net.IP(val.FillBytes(make([]byte, ipLen)))
+	if ipNet.Contains(res) {
+		return res
 	}
 	return nil
 }
